@@ -654,7 +654,7 @@ func c16OpCases() int { return len(c16Pool) }
 func init() {
 	fw.Register(&fw.Prop{
 		ID:      "C16",
-		CaseCPU: 60,
+		CaseCPU: 120,
 		Title:   "Query results equal what the Go API gives",
 		Cases:   func(tier string, seed uint64) int { return c16OpCases() + c16N(tier) },
 		Run:     c16Run,
